@@ -582,13 +582,110 @@ Proof.
     + apply existsb_exists. exists v. split; auto. apply N.eqb_refl.
 Qed.
 
+(* ------------------------------------------------------ codec-writer pool *)
+From Coq Require Import Permutation.
+
+Definition PInv (s : pstate) : Prop :=
+  NoDup (p_pool s ++ map snd (p_held s))
+  /\ forall e, In e (p_pool s ++ map snd (p_held s)) -> e < p_next s.
+
+Lemma take_req_perm r h e rest :
+  take_req r h = Some (e, rest) -> Permutation (map snd h) (e :: map snd rest).
+Proof.
+  revert e rest. induction h as [|[r' e'] t IH]; intros e rest H; cbn in H; [discriminate|].
+  destruct (Nat.eqb r' r).
+  - inversion H; subst. reflexivity.
+  - destruct (take_req r t) as [[e1 t1]|] eqn:E; [|discriminate]. inversion H; subst.
+    cbn. rewrite (IH _ _ eq_refl). apply perm_swap.
+Qed.
+
+Lemma PInv_init : PInv pinit.
+Proof. split; cbn; [constructor | intros e []]. Qed.
+
+Lemma PInv_step s o : PInv s -> PInv (pstep false s o).
+Proof.
+  intros [Hn Hb]. destruct o as [r|r fail]; cbn [pstep andb].
+  - destruct (take_req r (p_held s)); [split; auto|].
+    destruct (p_pool s) as [|e p] eqn:Ep; unfold PInv; cbn [p_pool p_next p_held map snd app] in *.
+    + split.
+      * constructor; auto. intros Hin. apply Hb in Hin. lia.
+      * intros e [<-|Hin]; [lia|]. apply Hb in Hin. lia.
+    + assert (P : Permutation (e :: p ++ map snd (p_held s)) (p ++ e :: map snd (p_held s)))
+        by apply Permutation_middle.
+      split.
+      * eapply Permutation_NoDup; eauto.
+      * intros x Hx. apply Hb. eapply Permutation_in; [symmetry; exact P|exact Hx].
+  - destruct (take_req r (p_held s)) as [[e rest]|] eqn:E; [|split; auto].
+    unfold PInv; cbn [p_pool p_next p_held app].
+    assert (P : Permutation (p_pool s ++ map snd (p_held s)) (e :: p_pool s ++ map snd rest)).
+    { rewrite (take_req_perm _ _ _ _ E). symmetry. apply Permutation_middle. }
+    split.
+    + eapply Permutation_NoDup; eauto.
+    + intros x Hx. apply Hb. eapply Permutation_in; [symmetry; exact P|exact Hx].
+Qed.
+
+Lemma PInv_run ops : forall s, PInv s -> PInv (prun false ops s).
+Proof. induction ops as [|o r IH]; intros s I; cbn; auto. apply IH, PInv_step; auto. Qed.
+
+Lemma nodupb_NoDup l : NoDup l -> nodupb l = true.
+Proof.
+  induction 1 as [|x l Hx Hn IH]; cbn; auto. rewrite IH, andb_true_r.
+  destruct (existsb (Nat.eqb x) l) eqn:E; auto. apply existsb_exists in E.
+  destruct E as [y [Hy E]]. apply Nat.eqb_eq in E. subst. contradiction.
+Qed.
+
+Lemma NoDup_app_r {A} (l1 l2 : list A) : NoDup (l1 ++ l2) -> NoDup l2.
+Proof. induction l1 as [|a l IH]; cbn; auto. intros H. inversion H; auto. Qed.
+
+Lemma PInv_held s : PInv s -> nodupb (map snd (p_held s)) = true.
+Proof. intros [Hn _]. apply nodupb_NoDup. eapply NoDup_app_r; eauto. Qed.
+
+(* two requests in flight never hold the same encoder *)
+Lemma pool_exclusive ops r1 r2 e :
+  In (r1, e) (p_held (prun false ops pinit)) -> In (r2, e) (p_held (prun false ops pinit)) ->
+  NoDup (map fst (p_held (prun false ops pinit))) -> r1 = r2.
+Proof.
+  pose proof (PInv_run ops pinit PInv_init) as [Hn _]. apply NoDup_app_r in Hn.
+  generalize dependent (p_held (prun false ops pinit)). intros h Hn.
+  induction h as [|[r x] t IH]; intros H1 H2 Hf; [contradiction|].
+  cbn in *. inversion Hn; subst. inversion Hf; subst.
+  destruct H1 as [E1|H1], H2 as [E2|H2].
+  - congruence.
+  - inversion E1; subst. exfalso. apply H3. apply in_map_iff. exists (r2, e); auto.
+  - inversion E2; subst. exfalso. apply H3. apply in_map_iff. exists (r1, e); auto.
+  - auto.
+Qed.
+
+Lemma resp_list_refl l : list_eqb resp_eqb l l = true.
+Proof.
+  induction l as [|x t IH]; cbn; auto. rewrite IH, andb_true_r.
+  destruct x; cbn; auto. apply N.eqb_refl.
+Qed.
+
+Definition HInv (s : hstate) : Prop := PInv (hs_gz s) /\ PInv (hs_zs s).
+
+Lemma hrun_spec h : forall s, HInv s -> codec_spec h (hrun false s h) = true.
+Proof.
+  induction h as [|o t IH]; intros s [Ig Iz]; cbn [hrun codec_spec]; auto.
+  assert (Ip : forall codec, PInv (hs_pool codec s)) by (intros codec; unfold hs_pool; destruct (codec =? 0)%N; auto).
+  assert (Iset : forall codec p n, PInv p -> HInv (hs_set codec s p n)).
+  { intros codec p n Hp. unfold hs_set. destruct (codec =? 0)%N; split; auto. }
+  destruct o as [codec n|codec x|codec xs]; cbn [hstep].
+  - rewrite IH by (apply Iset, PInv_run, Ip). reflexivity.
+  - rewrite IH by (apply Iset, PInv_run, Ip). cbn. rewrite N.eqb_refl. reflexivity.
+  - rewrite IH by (apply Iset, PInv_run, PInv_run, Ip).
+    rewrite PInv_held by (apply PInv_run, Ip).
+    unfold hop_ok, hop_expect. rewrite resp_list_refl. reflexivity.
+Qed.
+
 Theorem model_spec_ok : forall i, spec_ok i (model i) = true.
 Proof.
-  intros [c evs|cands evs|n|g r].
+  intros [c evs|cands evs|n|g r|lvl h].
   - apply notify_model_ok.
   - cbn [model spec_ok negb andb]. apply once_spec_holds. apply OInv_run_oevs, OInv_init.
   - cbn. rewrite N.eqb_refl. reflexivity.
   - reflexivity.
+  - cbn [model spec_ok]. apply hrun_spec. split; apply PInv_init.
 Qed.
 
 (* ------------------------------------------------ readable consequences *)
